@@ -10,7 +10,7 @@ use flac_codec::encode::{FlacByteWriter, FlacSampleWriter};
 use serde_json::{json, Value};
 use std::io::{Cursor, Write};
 
-pub const RULE: &str = "write histories: (A) ALL compositions of an 18-unit (thorough 21) mono 8-bit input into write calls for the byte, sample and channel writers; (B,C) all histories with ≤2 (thorough ≤3 on B) cut points, plus a zero-length call at every position, on stereo 16-bit (17 PCM frames) and 3-channel 24-bit (33 PCM frames) inputs in the writer's native unit (bytes: cuts fall mid-sample and mid-PCM-frame); (D) trailing partial PCM frames of every possible length after 0, 5, 16 and 17 whole frames; × {byte LE, byte BE, sample, channel} × declared/undeclared × two option sets; oracle = byte identity with the single-call sample-writer file; reference-file hashes are compared across the 16 worker processes (run-to-run determinism)";
+pub const RULE: &str = "write histories: (A) ALL compositions of an 18-unit (thorough 21) mono 8-bit input into write calls for the byte, sample and channel writers; (B,C) all histories with ≤2 (thorough ≤3 on B) cut points, plus a zero-length call at every position, on stereo 16-bit (17 PCM frames), 3-channel 24-bit (33 PCM frames), mono 12-bit (40) inputs and ≤3 cuts on a mono 16-bit input of 70 PCM frames (4 blocks + remainder; byte writers ≤2 cuts) in the writer's native unit (bytes: cuts fall mid-sample and mid-PCM-frame); (D) trailing partial PCM frames of every possible length after 0, 5, 16 and 17 whole frames; × {byte LE, byte BE, sample, channel} × declared/undeclared × two option sets; oracle = byte identity with the single-call sample-writer file; reference-file hashes are compared across the 16 worker processes (run-to-run determinism)";
 pub const ASSUMPTIONS: &[&str] = &["PCM content is the fixed position-identifying signal; histories, not sample values, are the explored dimension here (values: C01)"];
 pub fn bounds(quick: bool) -> Value {
     json!({"compositions_n": if quick {18} else {21}, "max_cuts_B": if quick {2} else {3}, "max_cuts_C": 2, "partial_lengths": "all 1..w*ch-1 bytes / 1..ch-1 samples"})
@@ -138,7 +138,9 @@ pub fn run(ctx: &Ctx, acc: &mut Acc) {
         }
     }
     // ---------- (B),(C) ≤k cuts + zero-length calls
-    let sets: Vec<(&str, Sig, usize, usize)> = vec![("B-stereo16", Sig { rate: 44100, bps: 16, ch: 2 }, 17, if q { 2 } else { 3 }), ("C-3ch24", Sig { rate: 48000, bps: 24, ch: 3 }, 33, 2), ("E-mono12", Sig { rate: 8000, bps: 12, ch: 1 }, 40, 2)];
+    // F: four blocks + a remainder with up to 3 cuts — histories that leave a remainder, refill without emptying and
+    // wrap the carry-over ring buffer (e.g. writes of B+5, B, B, rest)
+    let sets: Vec<(&str, Sig, usize, usize)> = vec![("B-stereo16", Sig { rate: 44100, bps: 16, ch: 2 }, 17, if q { 2 } else { 3 }), ("C-3ch24", Sig { rate: 48000, bps: 24, ch: 3 }, 33, 2), ("E-mono12", Sig { rate: 8000, bps: 12, ch: 1 }, 40, 2), ("F-mono16-4blocks", Sig { rate: 44100, bps: 16, ch: 1 }, 70, 3)];
     for (name, sig, frames, maxcuts) in sets {
         for opt in [Opt { declared: true, ..Opt::base16() }, Opt { declared: false, ..Opt::base16() }, Opt { declared: true, ..fast_opt() }] {
             let job = Job { name, sig: sig.clone(), pcm: ident_pcm(sig.ch, sig.bps, frames), opt };
